@@ -1517,7 +1517,7 @@ def main(tier, seed, replay=None):
         cfgs = ['MC_Lifecycle_quick.cfg', 'MC_Lifecycle_quick_sync.cfg'] if tier == 'quick' else \
                ['MC_Lifecycle_thorough.cfg', 'MC_Lifecycle_thorough_sync.cfg', 'MC_Lifecycle_thorough_long.cfg',
                 'MC_Lifecycle_quick.cfg', 'MC_Lifecycle_quick_sync.cfg']
-        f_checks = [(cfg, big.submit(tlc.check, 'MC_Lifecycle.tla', cfg, timeout=3000, workers=w_big, heap='6g',
+        f_checks = [(cfg, big.submit(tlc.check, 'MC_Lifecycle.tla', cfg, timeout=3000, workers=w_big, heap='4g',
                                      coverage=(cfg == 'MC_Lifecycle_quick.cfg' and tier == 'thorough'))) for cfg in cfgs]
         f_bugs = [(b, small.submit(tlc.expect_violation, 'MC_Lifecycle.tla', 'MC_Lifecycle_bug_%s.cfg' % b, timeout=1200,
                                    workers=2, heap='3g')) for b in BUG_CFGS]
